@@ -30,6 +30,7 @@ def clock_obligations(R, P, p, label):
                          p.pc, z3.BoolVal(p.stored_value_is('/ds/latest_known_time.json', nows[-1])), group=label + '/time-recorded')
 
 def check(R, tier):
+    R.fallback_kinds = {'expiry'}
     I = R.interp('tough'); install_world(I)
     R.bounds.update({'instants': 'full 64-bit (signed) — every Utc::now() sample is an independent free variable',
                      'transport chunks per file': 1, 'root hops': 2 if tier == 'thorough' else 1})
